@@ -76,6 +76,7 @@ class ExprCfg:
     p_relnum: float = 0.03    # relation used as a number
     allow_time: bool = True
     safe: float = 0.75        # chance of a domain-safe wrapper for partial functions
+    p_idiom: float = 0.12     # precedence-sensitive / interval idioms of real models
     funcs: tuple = ("exp", "log", "sqrt", "sin", "cos", "tan", "asin", "acos", "atan", "abs")
 
 
@@ -95,7 +96,60 @@ def rel_operands(rng, avail, depth, cfg):
     return a, b
 
 
+def idiom_cond(rng, avail, cfg):
+    """condition shapes that real models use and printers get wrong: intervals, mixed nesting"""
+    v = ("var", rng.choice(avail)) if avail else lit(rng)
+    w = ("var", rng.choice(avail)) if avail else lit(rng)
+    lo, hi = ("neg", small_lit(rng)), small_lit(rng)
+    k = rng.randrange(6)
+    if k == 0:   # lo < v <= hi
+        return ("and", ("rel", "gt", v, lo), ("rel", "le", v, hi))
+    if k == 1:
+        return ("and", ("rel", "ge", v, lo), ("rel", "lt", v, ("add", hi, w)))
+    if k == 2:   # And with a nested Or
+        return ("and", ("rel", "gt", v, lo), ("or", ("rel", "lt", w, lo), ("rel", "gt", w, hi)))
+    if k == 3:   # Or with a nested And
+        return ("or", ("and", ("rel", "gt", v, lo), ("rel", "lt", v, hi)), ("rel", "gt", w, hi))
+    if k == 4:
+        return ("not", ("or", ("rel", "lt", v, w), ("rel", "eq", v, hi)))
+    return ("and", ("or", ("rel", "le", v, lo), ("rel", "ge", v, hi)), ("and", ("rel", "lt", w, hi), ("or", ("rel", "gt", w, lo), ("rel", "gt", v, w))))
+
+
+def idiom_expr(rng, avail, cfg):
+    """precedence-sensitive shapes common in cell models"""
+    def var():
+        return ("var", rng.choice(avail)) if avail else lit(rng)
+    a, x, y = var(), var(), var()
+    n = ("num", rng.choice([2, 3]), 0)
+    k = rng.randrange(12)
+    if k == 0:
+        return ("div", a, ("pow", x, n))                                  # a/x**2
+    if k == 1:
+        return ("div", a, ("pow", ("add", small_lit(rng), ("mul", y, y)), n))   # a/(k + y*y)**2
+    if k == 2:
+        return ("div", ("pow", a, n), ("pow", x, n))                      # K**2/c**2
+    if k == 3:
+        return ("mul", ("div", a, ("pow", x, n)), y)                      # a/x**3*y
+    if k == 4:
+        return ("neg", ("pow", x, n))                                     # -x**2
+    if k == 5:
+        return ("pow", ("num", 2, 0), ("neg", x))                         # 2**-x
+    if k == 6:
+        return ("div", ("div", a, x), y)                                  # a/x/y
+    if k == 7:
+        return ("div", a, ("div", x, y))                                  # a/(x/y)
+    if k == 8:
+        return ("sub", a, ("sub", x, y))                                  # a - (x - y)
+    if k == 9:
+        return ("pow", ("neg", x), n)                                     # (-x)**2
+    if k == 10:
+        return ("div", ("num", 1, 0), ("add", ("num", 1, 0), ("fn", "exp", ("div", ("sub", x, a), small_lit(rng)))))   # 1/(1 + exp((x - a)/k))
+    return ("sub", ("neg", a), ("mul", x, ("neg", y)))                    # -a - x*-y
+
+
 def gen_cond(rng, avail, depth, cfg: ExprCfg):
+    if depth > 0 and rng.random() < cfg.p_idiom:
+        return idiom_cond(rng, avail, cfg)
     if depth > 0 and rng.random() < cfg.p_logic:
         k = rng.random()
         if k < 0.25:
@@ -122,6 +176,8 @@ def gen_expr(rng: random.Random, avail: list[str], depth: int, cfg: ExprCfg | No
         if cfg.allow_time and k < 0.70:
             return ("var", rng.choice(["t", "time"]))
         return lit(rng)
+    if rng.random() < cfg.p_idiom:
+        return idiom_expr(rng, avail, cfg)
     k = rng.random()
     sub = lambda d=depth - 1: gen_expr(rng, avail, d, cfg)  # noqa: E731
     if k < cfg.p_cond:
